@@ -37,7 +37,7 @@ def unwindset(tb):
         "__CPROVER_file_local_parser_c_str_to_instr.0": tb["FILTERED_STR_LEN"] + 4,
         "x86dec_want.1": 260,
         "vf_instance.0": 80,
-        "strstr.0": 104, "strstr.1": 104,
+        "strstr.0": 104, "strstr.1": 104, "strtok_r.0": 104, "strtok_r.1": 104, "__CPROVER_file_local_libc_models_c_vf_is_delim.0": 4,
         "strlen.0": 104, "strcpy.0": 130, "strcmp.0": 20, "strchr.0": 104,
         "__CPROVER_file_local_reg_parser_c_strlen_int.0": 104,
         "find_add_mem.0": 104, "find_mem_const.0": 104, "get_reg_str.0": 104, "get_index_reg.0": 104,
